@@ -287,13 +287,15 @@ static void execOp(int code, int slot, int64_t arg, Ent* self) {
 // ---------------------------------------------------------------- simulated remote parties and interrupters
 static void remoteTask(void* a) {
   int r = (int)(intptr_t)a; const RunSpec& s = *C.spec; unsigned char buf[1024];
+  int linger[4]; int nlinger = 0;   /* connections this remote keeps open and goes on reading from (a peer that stays): whatever the server queues for them must get through */
   for (size_t i = 0; i < s.plan.size() && !C.stopPeers; ++i) {
     const Op& op = s.plan[i]; if (op.task != 1 + r) continue;
     switch (op.code) {
     case R_STALL: { static const int ms[] = {1, 4, 15, 80}; usleep(ms[op.a[1] % 4] * 1000); break; }
     case R_CONNECT: {
       int fd = socket(AF_INET, SOCK_STREAM, 0); struct sockaddr_in sin; memset(&sin, 0, sizeof sin); sin.sin_family = AF_INET; sin.sin_port = htons((uint16_t)(5000 + op.a[0] % 2)); sin.sin_addr.s_addr = htonl(0x7f000001);
-      if (connect(fd, (struct sockaddr*)&sin, sizeof sin) == 0) { probe("remote_connected"); size_t n = op.a[1] % 700; memset(buf, 9, sizeof buf); if (n) { fcntl(fd, F_SETFL, O_NONBLOCK); (void)!send(fd, buf, n, 0); } if (op.a[2] % 3 == 0) usleep(2000); if (op.a[2] % 2 == 0) { fcntl(fd, F_SETFL, O_NONBLOCK); (void)!recv(fd, buf, sizeof buf, 0); } }
+      if (connect(fd, (struct sockaddr*)&sin, sizeof sin) == 0) { probe("remote_connected"); size_t n = op.a[1] % 700; memset(buf, 9, sizeof buf); if (n) { fcntl(fd, F_SETFL, O_NONBLOCK); (void)!send(fd, buf, n, 0); } if (op.a[2] % 3 == 0) usleep(2000); if (op.a[2] % 2 == 0) { fcntl(fd, F_SETFL, O_NONBLOCK); (void)!recv(fd, buf, sizeof buf, 0); }
+        if (op.a[2] % 5 == 4 && nlinger < 4) { fcntl(fd, F_SETFL, O_NONBLOCK); linger[nlinger++] = fd; probe("remote_stays_connected"); break; } }
       close(fd); break; }
     case R_LISTEN: {
       int ls = socket(AF_INET, SOCK_STREAM, 0); struct sockaddr_in sin; memset(&sin, 0, sizeof sin); sin.sin_family = AF_INET; sin.sin_port = htons((uint16_t)(6000 + op.a[0] % 3)); sin.sin_addr.s_addr = htonl(0x7f000001);
@@ -306,6 +308,9 @@ static void remoteTask(void* a) {
     }
   }
   { NoPreempt np; C.peersDone++; }
+  /* the script of this remote is over, but it goes on reading from the connections it kept, until they end or the run does */
+  while (nlinger > 0 && !C.stopped) { for (int k = 0; k < nlinger;) { ssize_t got = recv(linger[k], buf, sizeof buf, 0); if (got == 0 || (got < 0 && errno != EAGAIN && errno != EWOULDBLOCK && errno != EINTR)) { close(linger[k]); linger[k] = linger[--nlinger]; } else ++k; } usleep(1000); }
+  for (int k = 0; k < nlinger; ++k) close(linger[k]);
 }
 static void interrupterTask(void* a) {
   int r = (int)(intptr_t)a; const RunSpec& s = *C.spec;
